@@ -373,7 +373,6 @@ func r143(c *Ctx) {
 func r144(c *Ctx, rule string) {
 	c.floor(rule, 10)
 	w := c.method("Buffer", "Write")
-	wtm, wtd := c.method("Buffer", "writeToMemory"), c.method("Buffer", "writeToDisk")
 	spill := c.method("Buffer", "createSpill")
 	diskF, maxF, maxMemF := c.field("Buffer", "diskBuffer"), c.field("Buffer", "maxBytes"), c.field("Buffer", "maxMemBytes")
 	memWrittenF, ovfF := c.field("Buffer", "memBytesWritten"), c.field("Buffer", "overflowed")
@@ -391,9 +390,41 @@ func r144(c *Ctx, rule string) {
 		}
 	}
 	c.ob(rule, "Write/has-limit-test", w.Pos(), len(limitIfs) >= 1, true, "")
-	var writes []callSite
-	for _, cs := range append(callsTo(w, wtm), callsTo(w, wtd)...) {
-		writes = append(writes, cs)
+	// where bytes are stored: Write calls on the memory buffer / the spill file (the two small helpers of the reference
+	// tree, writeToMemory and writeToDisk, are always expanded into Write)
+	type storeSite struct {
+		callSite
+		kind  string    // "memory" | "disk"
+		data  ssa.Value // what is written
+		count ssa.Value // the count the write returned
+	}
+	var writes []storeSite
+	memBufF := c.field("Buffer", "memoryBuffer")
+	for _, cs := range callsIn(w) {
+		cc := cs.common()
+		var target, data ssa.Value
+		switch {
+		case cc.IsInvoke() && cc.Method.Name() == "Write" && len(cc.Args) == 1:
+			target, data = resolve(cc.Value), cc.Args[0]
+		case !cc.IsInvoke() && cc.StaticCallee() != nil && cc.StaticCallee().Name() == "Write" && len(cc.Args) == 2:
+			target, data = resolve(cc.Args[0]), cc.Args[1]
+		default:
+			continue
+		}
+		kind := ""
+		if f, _, ok := fieldOfAddr(target); ok && f == memBufF {
+			kind = "memory"
+		} else if isLoadOfField(target, diskF) {
+			kind = "disk"
+		} else {
+			c.ob(rule, "Write/unrecognised-destination", cs.pos(), false, true, "a Write inside Buffer.Write that goes neither to the memory buffer nor to the spill file")
+			continue
+		}
+		var count ssa.Value
+		if call, ok := cs.instr.(*ssa.Call); ok {
+			count = resultOf(call, 0)
+		}
+		writes = append(writes, storeSite{cs, kind, data, count})
 	}
 	for _, cs := range writes {
 		tested := false
@@ -402,7 +433,16 @@ func r144(c *Ctx, rule string) {
 				tested = true
 			}
 		}
-		c.ob(rule, "Write/"+cs.common().StaticCallee().Name()+"-after-limit-test", cs.pos(), tested, true, "no byte may be stored before the total-size limit was tested (a fast path ahead of the test lets over-limit bodies through)")
+		c.ob(rule, "Write/"+cs.kind+"-write-after-limit-test", cs.pos(), tested, true, "no byte may be stored before the total-size limit was tested (a fast path ahead of the test lets over-limit bodies through)")
+	}
+	byKind := func(k string) []storeSite {
+		var out []storeSite
+		for _, s := range writes {
+			if s.kind == k {
+				out = append(out, s)
+			}
+		}
+		return out
 	}
 	// overflow branch: sets overflowed, returns ErrMaximumSizeExceeded, reaches no write
 	okOvf := false
@@ -453,10 +493,10 @@ func r144(c *Ctx, rule string) {
 	}
 	c.ob(rule, "Write/over-limit=>overflowed+ErrMaximumSizeExceeded", w.Pos(), okOvf, true, "when maxBytes>0 and total+len(p)>maxBytes the buffer must be marked overflowed and the write refused")
 	// memory writes only before the spill exists, and within the memory limit
-	for _, cs := range callsTo(w, wtm) {
+	for _, cs := range byKind("memory") {
 		noSpill, _ := nilKnowledge(cs.instr, matchFieldLoad(diskF))
 		c.ob(rule, "Write/memory-write-only-before-spill", cs.pos(), noSpill, true, "once the spill file exists every later byte must go to disk: a later chunk written to memory would be read back AHEAD of earlier disk bytes (body reordered)")
-		arg := cs.common().Args[1]
+		arg := resolve(cs.data)
 		bounded := false
 		how := ""
 		if sl, ok := arg.(*ssa.Slice); ok && sl.X == ssa.Value(w.Params[1]) && sl.Low == nil {
@@ -498,8 +538,8 @@ func r144(c *Ctx, rule string) {
 		c.ob(rule, "Write/memory-write-bounded-by-maxMemBytes", cs.pos(), bounded, true, "a write to the in-memory part must be bounded by the memory limit: "+how)
 	}
 	// the split write is contiguous: disk part is p[n:] where n is what the memory part wrote
-	for _, cs := range callsTo(w, wtd) {
-		arg := cs.common().Args[1]
+	for _, cs := range byKind("disk") {
+		arg := resolve(cs.data)
 		if arg == ssa.Value(w.Params[1]) {
 			// whole chunk to disk: only when a spill already exists
 			_, hasSpill := nilKnowledge(cs.instr, matchFieldLoad(diskF))
@@ -508,8 +548,8 @@ func r144(c *Ctx, rule string) {
 		}
 		ok := false
 		if sl, isSl := arg.(*ssa.Slice); isSl && sl.X == ssa.Value(w.Params[1]) && sl.High == nil {
-			if e, isE := sl.Low.(*ssa.Extract); isE && e.Index == 0 {
-				if mc, isC := e.Tuple.(*ssa.Call); isC && isCallTo(mc.Common(), wtm) && dominates(mc, cs.instr) {
+			for _, m := range byKind("memory") {
+				if m.count != nil && resolve(sl.Low) == m.count && dominates(m.instr, cs.instr) {
 					ok = true
 				}
 			}
@@ -528,23 +568,36 @@ func r144(c *Ctx, rule string) {
 		noSpill, _ := nilKnowledge(sp.instr, matchFieldLoad(diskF))
 		c.ob(rule, "Write/spill-created-at-most-once", sp.pos(), noSpill, true, "createSpill only while no spill exists (else the first spill file leaks and its bytes are lost)")
 	}
-	// counters track what was written
-	for _, f := range []struct {
-		fn  *ssa.Function
-		fld string
-	}{{wtm, "memBytesWritten"}, {wtd, "diskBytesWritten"}} {
-		ok := false
-		for _, wr := range c.writesOfField(c.field("Buffer", f.fld)) {
-			if wr.fn == f.fn {
-				if bo, isB := wr.val.(*ssa.BinOp); isB && bo.Op == token.ADD && isLoadOfField(bo.X, c.field("Buffer", f.fld)) {
-					ok = true
+	// counters track what was written: every store site is followed by counter += the count it returned, and nothing else
+	// writes the counters
+	for _, f := range []struct{ kind, fld string }{{"memory", "memBytesWritten"}, {"disk", "diskBytesWritten"}} {
+		cf := c.field("Buffer", f.fld)
+		accounted := map[ssa.Instruction]bool{}
+		for _, wr := range c.writesOfField(cf) {
+			okW := false
+			if wr.fn == w {
+				if bo, isB := wr.val.(*ssa.BinOp); isB && bo.Op == token.ADD && isLoadOfField(bo.X, cf) {
+					if cv, isCv := bo.Y.(*ssa.Convert); isCv {
+						for _, s := range byKind(f.kind) {
+							if s.count != nil && resolve(cv.X) == s.count && dominates(s.instr, wr.instr) {
+								okW = true
+								accounted[s.instr] = true
+							}
+						}
+					}
 				}
-			} else {
-				ok = false
-				c.ob(rule, "write Buffer."+f.fld+" <- "+fname(wr.fn), wr.instr.Pos(), false, false, "")
+			}
+			if !okW {
+				c.ob(rule, "write Buffer."+f.fld+" <- "+fname(wr.fn), wr.instr.Pos(), false, false, "the counter may only be advanced by the count a write to its part returned")
 			}
 		}
-		c.ob(rule, f.fn.Name()+"/accounts-bytes-written", f.fn.Pos(), ok, true, "")
+		all := len(byKind(f.kind)) >= 1
+		for _, s := range byKind(f.kind) {
+			if !accounted[s.instr] {
+				all = false
+			}
+		}
+		c.ob(rule, f.kind+"-writes/account-bytes-written", w.Pos(), all, true, "")
 	}
 	// read side: memory first, then disk from offset 0
 	sr := c.method("Buffer", "setReader")
@@ -621,7 +674,7 @@ func r145(c *Ctx) {
 		call := cs[0]
 		on := false
 		extra := 0
-		for _, ce := range dominatingConds(call.instr.Block()) {
+		for _, ce := range condsOtherThanLoop(dominatingConds(call.instr.Block())) {
 			if f, _, ok := fieldLoad(ce.cond); ok && f.Name() == m.flag && ce.taken {
 				on = true
 				continue
